@@ -818,7 +818,11 @@ impl Decl {
             w!(o, "    let mut out = Vec::new();");
             w!(o, "    macro_rules! step {{ ($ty:ty, $label:expr) => {{{{");
             w!(o, "        let raw: $ty = <$ty as Default>::default();");
-            w!(o, "        let exp = {n}::<$ty>::try_new(raw).ok().map(|v| v.into_inner());");
+            if v {
+                w!(o, "        let exp = {n}::<$ty>::try_new(raw).ok().map(|v| v.into_inner());");
+            } else {
+                w!(o, "        let exp = Some({n}::<$ty>::new(raw).into_inner());");
+            }
             w!(o, "        let got = vlib::drive::no_panic(|| <{n}<$ty> as Default>::default().into_inner());");
             w!(o, "        out.push(($label.to_string(), exp.is_some(), got.ok().map(|g| exp.as_ref() == Some(&g))));");
             w!(o, "    }}}} }}");
